@@ -20,9 +20,9 @@ TRUSTED_BASE = [
 # ------------------------------------------------------------------ stages
 def stage_inst(tier, seed):
     """witness workspace of derive instances -> fact files"""
-    st = X.Stage('inst-%s-%d-v%d' % (tier, seed, I.CORPUS_VERSION))
+    insts = I.build(tier, seed)
+    st = X.Stage('inst-%s-%d-%s' % (tier, seed, hashlib.sha256(json.dumps(insts, sort_keys=True).encode()).hexdigest()[:12]))
     def build(out):
-        insts = I.build(tier, seed)
         ws = X.scratch_dir('inst')
         try:
             I.write_workspace(ws, insts, repo=X.REPO)
@@ -210,3 +210,100 @@ def finish(prop, tier, seed, level, ctx, t0, coverage_extra=None, assumptions=No
     if ctx.errors:
         return 2
     return 1 if out_viol else 0
+
+# ------------------------------------------------------------------ reject / accept batches (C12, C13, C14, ...)
+def stage_batch(name, cases, version=1):
+    """compiles the accept cases in one crate and the reject cases in another; returns (stage, results)
+    results: {case id: {'errors': [{'message','code','rendered'}]}}"""
+    from corpus import rejects as RJ
+    st = X.Stage('batch-%s-v%d-%s' % (name, version, hashlib.sha256(json.dumps(cases, sort_keys=True).encode()).hexdigest()[:12]))
+    def build(out):
+        ws = X.scratch_dir('batch')
+        try:
+            res = {}
+            meta = {}
+            for kind in ('accept', 'reject'):
+                cs = [c for c in cases if c['expect'] == kind]
+                if not cs:
+                    continue
+                cdir = os.path.join(ws, kind)
+                os.makedirs(os.path.join(cdir, 'src'))
+                src, index = RJ.render_batch(cs)
+                with open(os.path.join(cdir, 'src', 'lib.rs'), 'w') as f:
+                    f.write(src)
+                with open(os.path.join(cdir, 'Cargo.toml'), 'w') as f:
+                    f.write('[package]\nname = "b_%s"\nversion = "0.0.0"\nedition = "2021"\n[dependencies]\nenum-tools = { path = "%s" }\n[workspace]\n' % (kind, X.REPO))
+                shutil.copy(os.path.join(X.REPO, 'Cargo.lock'), os.path.join(cdir, 'Cargo.lock'))
+                p = X.run_cargo(cdir, ['check', '--offline', '--message-format=json'], toolchain='+nightly',
+                                env_extra={'CARGO_TARGET_DIR': os.path.join(ws, 'target'), 'RUSTFLAGS': '-Awarnings'})
+                meta[kind] = {'rc': p.returncode, 'stderr_tail': p.stderr[-1500:]}
+                for c in cs:
+                    res[c['id']] = {'errors': []}
+                for line in p.stdout.splitlines():
+                    if not line.startswith('{'):
+                        continue
+                    try:
+                        m = json.loads(line)
+                    except ValueError:
+                        continue
+                    if m.get('reason') != 'compiler-message':
+                        continue
+                    msg = m['message']
+                    if msg.get('level') != 'error':
+                        continue
+                    cid = None
+                    for s in msg.get('spans', []):
+                        if s.get('is_primary') and s['file_name'].endswith('lib.rs'):
+                            cid = index.get(s['line_start'])
+                            # errors inside macro expansions: use the outermost call site
+                            e = s.get('expansion')
+                            while e:
+                                sp = e.get('span') or {}
+                                if sp.get('file_name', '').endswith('lib.rs') and index.get(sp.get('line_start')):
+                                    cid = index.get(sp['line_start'])
+                                e = sp.get('expansion')
+                    rec = {'message': msg.get('message'), 'code': (msg.get('code') or {}).get('code'), 'rendered': (msg.get('rendered') or '')[:600]}
+                    if cid in res:
+                        res[cid]['errors'].append(rec)
+                    else:
+                        meta.setdefault('unattributed', []).append(rec)
+            with open(os.path.join(out, 'results.json'), 'w') as f:
+                json.dump({'results': res, 'meta': meta}, f)
+        finally:
+            shutil.rmtree(ws, ignore_errors=True)
+    d = st.ensure(build)
+    with open(os.path.join(d, 'results.json')) as f:
+        r = json.load(f)
+    return st, r
+
+def judge_batch(ctx, cases, r, prop, construct_of=None):
+    """applies the accept/reject expectations; violations keyed by case class"""
+    res, meta = r['results'], r['meta']
+    unattr = [u for u in meta.get('unattributed', []) if 'aborting due to' not in (u['message'] or '') and 'could not compile' not in (u['message'] or '')]
+    n_ok = 0
+    for c in cases:
+        errs = res.get(c['id'], {}).get('errors', [])
+        src = ' '.join(c['body'])
+        if c['expect'] == 'accept':
+            if errs:
+                if c['class'].endswith('twin') or '/twin' in c['class']:
+                    ctx.error('compiling twin %s (%s) does not compile: %s' % (c['id'], c['class'], errs[0]['message']))
+                else:
+                    ctx.violation('must-accept', None, c['class'], 'a declaration that must be accepted is rejected: %s%s  --  %s' % (errs[0]['message'], (' [%s]' % errs[0]['code']) if errs[0]['code'] else '', src[:400]),
+                                  key='%s/must-accept/%s' % (prop, c['class']), construct=construct_of(c) if construct_of else None)
+                    ctx.violations[-1]['case'] = c
+            else:
+                n_ok += 1; ctx.ok('accept-witness')
+        else:
+            own = [e for e in errs if e['code'] is None]
+            if not errs or (c['owner'] == 'derive' and not own):
+                what = 'compiles without any error' if not errs else 'is rejected only by rustc itself (%s), not by the derive' % errs[0]['message']
+                ctx.violation('must-reject', None, c['class'], 'a declaration/configuration outside the supported domain %s: %s' % (what, src[:500]),
+                              key='%s/must-reject/%s' % (prop, c['class']), construct=construct_of(c) if construct_of else None)
+                ctx.violations[-1]['case'] = c
+            else:
+                n_ok += 1; ctx.ok('reject-witness')
+        ctx.nontrivial.add(c['class'])
+    if meta.get('accept', {}).get('rc', 0) != 0 and not any(res.get(c['id'], {}).get('errors') for c in cases if c['expect'] == 'accept'):
+        ctx.error('accept batch failed to compile without an attributable error: %s' % meta['accept']['stderr_tail'][-600:])
+    return n_ok
